@@ -109,6 +109,54 @@ class History:
             return False
         return True
 
+    def block_across_reconnect(self, T, ns, sid):
+        """A session() block of connection A is still open (its handler is
+        busy) when the client leaves the namespace and connects to it again
+        on the same transport; the new connection B saves its own session.
+        Whatever the old block does when it finally exits (it may well
+        raise: its client is gone), B's session is B's."""
+        ctx, r = self.ctx, self.r
+        sio, d = r.sio, r.d
+        op = ['block_across_reconnect', sid, ns]
+        self.ops.append(op)
+        cm = sio.session(sid, namespace=ns)
+        try:
+            s = d.run(cm.__aenter__()) if d.is_async else cm.__enter__()
+        except Exception as e:
+            return self.fail('entering a session() block raised %r' % e,
+                             {'op': op})
+        s['held_open'] = {'marker': -1, 'origin': [T, ns, -1]}
+        self.r.step(['cdisc', T, ns])
+        del self.conn[(T, ns)]
+        del self.model[(sid, ns)]
+        res = self.r.step(['connect', T, ns, None])
+        acc = [p for p in res.get('sent', {}).get(T, [])
+               if p['type'] == R.CONNECT]
+        if not acc:
+            return self.fail('CONNECT not accepted', res)
+        sid2 = acc[0]['data']['sid']
+        self.conn[(T, ns)] = sid2
+        self.epochs[(T, ns)] = self.epochs.get((T, ns), 0) + 1
+        v = self.value(T, ns)
+        res = self.r.step(['save_session', sid2, ns, copy.deepcopy(v)])
+        if res.get('exc'):
+            return self.fail('save_session raised', res)
+        self.model[(sid2, ns)] = v
+        try:
+            if d.is_async:
+                d.run(cm.__aexit__(None, None, None))
+            else:
+                cm.__exit__(None, None, None)
+            ctx.count('stale_block_exits_silent')
+        except Exception:
+            ctx.count('stale_block_exits_raising')
+        r.d.clear_errors()
+        ctx.count('session_blocks_across_reconnect')
+        op = ['get_session', sid2, ns]
+        self.ops.append(op)
+        res = self.r.step(op)
+        self.check_get(res, sid2, ns, T)
+
     def step(self):
         rng = self.rng
         ctx = self.ctx
@@ -168,6 +216,8 @@ class History:
             return
         T, ns = rng.choice(sorted(self.conn))
         sid = self.conn[(T, ns)]
+        if r > 0.97:
+            return self.block_across_reconnect(T, ns, sid)
         if r < 0.32:
             k = rng.random()
             if k < 0.45:
@@ -301,6 +351,7 @@ def run(ctx):
     ctx.require('sibling_namespace_reads', 5)
     ctx.require('duplicate_connects', 5)
     ctx.require('session_blocks_nested', 5)
+    ctx.require('session_blocks_across_reconnect', 5)
     ctx.require('session_blocks_left_by_exception', 5)
     # threaded server: a re-CONNECT racing the end of the old connection
     from checks import c16_sched
